@@ -359,7 +359,8 @@ class Cmd:
                 a += [flag, dp]
         for x in self.extras:
             a += ["-x", x]
-        a += self.file_outs()
+        dirouts = self.attrs.get("x-dir-out", ())
+        a += [o + "/" if o in dirouts else o for o in self.file_outs()]   # x-dir-out: a directory under a plain node name
         a.append("--")
         a += self.get_reads()
         return a
@@ -395,6 +396,10 @@ class Desc:
             for c in self.cmds:
                 for o in c.outs:
                     self._prod[o] = c
+            # a directory created under a plain node name `t` is what the directory-tree node `t/` lists
+            for c in self.cmds:
+                for o in c.attrs.get("x-dir-out", ()):
+                    self._prod.setdefault(o + "/", c)
         return self._prod.get(node)
 
     def node_is_dir(self, n):
@@ -621,7 +626,7 @@ def evaluate(desc, disk, target):
                 payload += ";" + x + "=" + ("!" if v is None else v)
             payload += ")"
             for o in c.file_outs():
-                if desc.node_is_dir(o) or is_dirnode(o):
+                if desc.node_is_dir(o) or is_dirnode(o) or o in c.attrs.get("x-dir-out", ()):
                     ex.outputs[o] = "{f=%s}" % payload
                     ex.kinds[o] = "dir"
                 else:
